@@ -692,6 +692,46 @@ def case_reentrant(cls_name, spec, op, depth, ctx):
     return diffs, True
 
 
+def case_reentrant_waiting(cls_name, spec, op, op2, ctx):
+    """The owner A is inside `with tree:`; another thread B has called `op2` and waits for the tree lock; now A calls `op`
+    nested in its section.  A must get through (a snapshot operation takes the tree lock and nothing else that B could be
+    holding), then leave; B then runs to completion."""
+    tree, _nodes, diffs = _build(cls_name, spec, spylock=True)
+    W.reset(tree)
+    out = {}
+    go = threading.Event()
+
+    def owner():
+        try:
+            with tree:
+                W.flag(("A", "in"))
+                go.wait(WD)
+                out["r"] = _call(op, tree, ctx)
+                W.flag(("A", "called"))
+        except BaseException:  # noqa: BLE001
+            out["err"] = traceback.format_exc()[-600:]
+        finally:
+            W.flag(("A", "left"))
+
+    ta = _thread("A", owner)
+    if not W.wait(lambda f: ("A", "in") in f):
+        raise RuntimeError("owner did not enter its section")
+    tb = _thread("B", _reader, tree, op2, ctx, "B")
+    W.wait(lambda f: ("blocked", "B") in f or ("B", "done") in f, timeout=2.0)
+    go.set()
+    ta.join(WD)
+    if ta.is_alive():
+        diffs.append((C_TERM, f"owner inside `with tree:` called {op} while another thread was waiting in {op2}: still blocked after {WD}s (lock-order deadlock); B alive={tb.is_alive()}"))
+        return diffs, True
+    tb.join(WD)
+    if tb.is_alive():
+        diffs.append((C_TERM, f"after the owner left its section the waiting {op2} did not finish within {WD}s"))
+    if "err" in out:
+        raise RuntimeError(out["err"])
+    W.reset(None)
+    return diffs, True
+
+
 def case_exception(cls_name, spec, op, ctx):
     tree, _nodes, diffs = _build(cls_name, spec, spylock=False)
     W.reset(None)
@@ -869,6 +909,11 @@ def _items(tier: str, only=None):
             for op in ops:
                 for depth in (2, 3):
                     items.append(("reentrant", cls_name, spec, op, depth))
+        if want("reentrant-waiting") and len(spec) == 2:
+            for op in ops:
+                for op2 in ops:
+                    if tier != "quick" or op == op2 or (sum(map(ord, op + "|" + op2)) % 3 == 0):
+                        items.append(("reentrant-waiting", cls_name, spec, op, op2))
         if want("exception") and len(spec) >= 1:
             for op in _ops_for(cls_name, XOPS):
                 items.append(("exception", cls_name, spec, op))
@@ -903,6 +948,8 @@ def _witness(item) -> dict:
         w.update(op=item[3], depth=item[4])
     elif g == "exception":
         w.update(op=item[3])
+    elif g == "reentrant-waiting":
+        w.update(op=item[3], op2=item[4])
     elif g == "two-writers":
         w.update(mut=item[3], op=item[4], op2=item[5])
     return w
@@ -921,6 +968,8 @@ def _item_of(w: dict):
         return (g, w["cls"], spec, w["op"], w["depth"])
     if g == "exception":
         return (g, w["cls"], spec, w["op"])
+    if g == "reentrant-waiting":
+        return (g, w["cls"], spec, w["op"], w["op2"])
     if g == "two-writers":
         return (g, w["cls"], spec, w["mut"], w["op"], w["op2"])
     raise ValueError(g)
@@ -964,6 +1013,9 @@ def _eval0(item, ctx):
     if g == "exception":
         r = case_exception(cls_name, item[2], item[3], ctx)
         return [(item, r[0], r[1], _func_of(item[3], cls_name))]
+    if g == "reentrant-waiting":
+        r = case_reentrant_waiting(cls_name, item[2], item[3], item[4], ctx)
+        return [(item, r[0], r[1], _func_of(item[3], cls_name) + " / " + _func_of(item[4], cls_name))]
     if g == "two-writers":
         r = case_two_writers(cls_name, item[2], item[3], item[4], item[5], ctx)
         return [] if r is None else [(item, r[0], r[1], _func_of(item[4], cls_name) + " / " + _func_of(item[5], cls_name))]
@@ -980,16 +1032,20 @@ def _case_repr(item) -> str:
     return " | ".join(parts)
 
 
+_POISONED = [False]
+
+
 def _run_chunk(chunk, prop, tier="quick", scratch_root=None):
     res = Result(prop)
     d = tempfile.mkdtemp(prefix="c18_", dir=scratch_root)
     ctx = {"dir": d, "tier": tier}
     snaps = raw_bad = 0
     try:
-        timeouts = 0
+        timeouts = 1 if _POISONED[0] else 0  # a worker process that met a deadlock in an earlier chunk stays unusable
         for pos, item in enumerate(chunk):
             # circuit breaker: a leaked lock makes every later wait run into the watchdog
-            if timeouts >= 2 or (_BREAKER is not None and _BREAKER.value >= 8):
+            # (after the first deadlock in this process a thread may hold a lock for good: nothing later here is reliable)
+            if timeouts >= 1 or (_BREAKER is not None and _BREAKER.value >= 8):
                 res.notes.append(("skipped", len(chunk) - pos))
                 break
             try:
@@ -1008,6 +1064,7 @@ def _run_chunk(chunk, prop, tier="quick", scratch_root=None):
                     res.violations.append(Violation(prop, clause, func, _witness(sub), clip(text)))
                 if any(c == C_TERM for c, _t in diffs):
                     timeouts += 1
+                    _POISONED[0] = True
                     if _BREAKER is not None:
                         with _BREAKER.get_lock():
                             _BREAKER.value += 1
@@ -1047,7 +1104,7 @@ def run(prop: str, tier: str, only=None) -> Result:
         f"{specs_txt} x two-step writers {list(MUTS)} x operations {list(OPS)} (Tree and TypedTree; TypedTree.save incl. value_map variants); "
         "writer-first: reader started while the writer is parked between its two steps; reader-first: reader parked in its " + ("first / middle / last" if tier == "quick" else "every (<= 12 reads) or 7 spread") + " structure read(s) while the writer queues up"
         + (" (reader-first: writers add2 and clear_add only)" if tier == "quick" else ""))
-    res.bounds["reentrant / exception"] = "same trees x every operation x nesting depth 2 and 3 (watchdog %.0fs); raising mapper/predicate callbacks for save, to_dict_list, copy(predicate), to_dotfile" % WD
+    res.bounds["reentrant / exception"] = "same trees x every operation x nesting depth 2 and 3 (watchdog %.0fs); the owner calling an operation inside its section while another thread waits in an operation (every pair of equal operations + a third of the mixed pairs in the quick tier, all pairs in the thorough tier; 2-node trees); raising mapper/predicate callbacks for save, to_dict_list, copy(predicate), to_dotfile" % WD
     res.bounds["two-writers"] = "trees with <= 2 nodes x {add2, ren2} x sampled operation pairs: writer A parked inside, writer A2 and readers B, B2 queued"
     res.bounds["blackbox"] = "one 2-node tree per class x every operation with the untouched RLock (bounded join 0.12s instead of lock instrumentation)"
     res.bounds["stress"] = f"{16 if tier == 'quick' else 96} free-running runs (2-3 writers x up to {400 if tier == 'quick' else 1500} critical sections, 2 readers over all operations until {80 if tier == 'quick' else 300} snapshots or 3s, switch interval 1e-5s): random schedules"
